@@ -166,7 +166,7 @@ func checkStore(c *harness.Ctx, what, dir string, uncompressed bool, want map[de
 	if len(cacnk) > 0 {
 		out, err := exec.Command(zcheck, cacnk...).CombinedOutput()
 		if err != nil {
-			c.Inconclusive("zstdcheck: %v %s", err, out)
+			c.Skip("zstdcheck: %v %s", err, out)
 			return false
 		}
 		byFile := map[string]string{}
@@ -443,7 +443,7 @@ func run(c *harness.Ctx, i int) {
 			out := filepath.Join(store, s[:4], s+".cacnk")
 			os.MkdirAll(filepath.Dir(out), 0755)
 			if o, err := exec.Command(zcheck, "-c", pf, out).CombinedOutput(); err != nil {
-				c.Inconclusive("zstdcheck -c: %v %s", err, o)
+				c.Skip("zstdcheck -c: %v %s", err, o)
 				return
 			}
 			// the leg is only worth something if the frame really has casync's shape: no content size, a window descriptor
